@@ -140,17 +140,41 @@ func (w *world) lcdc(v uint8) {
 	}
 }
 
+var worlds int
+
 func newWorld(c *rig.Ctx, src, lyc uint8) *world {
 	m := rig.MustNew(rig.BlankROM(0, 0, 0), rig.Opts{})
+	// OAM contents and the object enable bit must not matter for the requests
+	worlds++
+	or := rig.NewRng(c.Seed, 0xc14, uint64(worlds), uint64(c.Shard))
+	onValue = 0x91
+	switch worlds % 3 {
+	case 1:
+		for k := 0; k < 160; k++ {
+			m.OAM.XPoke(k, or.U8())
+		}
+		onValue = 0x93
+		c.Count("worlds_with_random_oam", 1)
+	case 2:
+		line := uint8(or.Intn(144))
+		for k := 0; k < 40; k++ {
+			m.OAM.XPoke(k*4, line+16-uint8(or.Intn(8)))
+			m.OAM.XPoke(k*4+1, uint8(8+or.Intn(160)))
+		}
+		onValue = 0x93 | or.U8()&0x04
+		c.Count("worlds_with_crowded_line", 1)
+	}
 	w := &world{c: c, m: m, src: src, lyc: lyc}
 	// configure with the LCD off, then switch on: the schedule starts at a known point
 	m.Mem.Write(0xff40, 0x11)
 	m.Mem.Write(0xff45, lyc)
 	m.Mem.Write(0xff41, src)
 	m.Mem.Write(0xff0f, 0)
-	w.lcdc(0x91)
+	w.lcdc(onValue)
 	return w
 }
+
+var onValue uint8 = 0x91
 
 func run(c *rig.Ctx) {
 	c.Require("cycles", "vblank_expected", "stat_expected_hblank", "stat_expected_vblank", "stat_expected_oam", "stat_expected_lyc", "runs_source_none", "switch_offs")
@@ -194,7 +218,7 @@ func run(c *rig.Ctx) {
 				switch r.Intn(4) {
 				case 0, 1:
 					if !w.ref.On {
-						v |= 0x80
+						v |= 0x80 | onValue&0x02
 					} else {
 						c.Count("switch_offs", 1)
 					}
